@@ -313,6 +313,11 @@ def check_translator(ctx, tag, **kw):
            'rx_active must be a register; the only register its conditions may use besides itself is one unconditional copy '
            'of the live DIR in the same clock domain (for the DIR rising edge); DIR copies used: %s, other registers: %s' % (used, regs))
     PD = used[0] if used else '<dir one cycle ago>'
+    # nothing else may decide rx_active: a level such as the decoder's rx_error (RxCmd[5:4] == 0b11 keeps RxActive = 1) would
+    # end a packet the PHY is still delivering
+    foreign = sorted(n for n in t.leaves if n not in {DIR, NXT, START, STOP, PD, ACT} and not n.startswith('cfg:'))
+    ctx.ob('C22.rx-active', K('rx_active.inputs'), not foreign, t.loc,
+           'rx_active may depend only on DIR, its one-cycle copy, NXT and the decoder strobes rx_start / rx_stop; it also reads %s' % foreign)
     t = Table(ctx, ir, ACT, {DIR, NXT, START, STOP, PD})
     dstart = lambda k: k[DIR] and not k[PD] and k[NXT]
     start = lambda k: k[DIR] and (dstart(k) or k[START])
